@@ -1,4 +1,59 @@
-//! C10 — not built yet.
+//! C10 — primitive operations follow their documented NumPy-style modular semantics.
+//! The evaluator correspondence: Graph/Eval.v's eval_node vs SimpleEvaluator::evaluate_node on
+//! generated graphs, node by node (every intermediate value compared).
+use crate::coqfmt::*;
+use crate::export::*;
+use crate::gen::*;
 use crate::out::Out;
-pub const HEADER: &str = "From CC Require Import Base.Prelude.";
-pub fn run(_tier: &str, _seed: u64, _out: &mut Out) {}
+use crate::progen::*;
+use crate::rng::Rng;
+use ciphercore_base::data_types::*;
+use ciphercore_base::data_values::Value;
+use serde_json::json;
+
+pub const HEADER: &str = "From CC Require Import Base.Prelude Base.Scalar Base.Ty Base.Shape Graph.Value Graph.IR Graph.Eval.";
+
+pub fn emit_eval_case(p: &Prog, rng: &mut Rng, out: &mut Out, kind: &str) {
+    let inputs: Vec<Value> = p.input_types.iter().map(|t| gen_value(t, rng)).collect();
+    let mut seed = [0u8; 16];
+    for b in seed.iter_mut() { *b = rng.next() as u8; }
+    let vals = eval_all(&p.g, &inputs, seed);
+    let nodes = p.g.get_nodes();
+    let mut ops = vec![];
+    for n in nodes.iter() {
+        let name = op_name(&n.get_operation());
+        out.stat(&format!("op:{}", name));
+        ops.push(name);
+    }
+    let tag = vals.iter().map(|v| v.tag()).find(|t| *t != "Ok").unwrap_or("Ok");
+    out.stat(&format!("eval:{}", tag));
+    let big = nodes.iter().any(|n| { let t = n.get_type().unwrap(); (t.is_array() || t.is_scalar()) && t.get_scalar_type().size_in_bits() == 128 });
+    if big { out.stat("with_128bit_type"); }
+    let lhs = format!("eval_graph_nodes {} {}", nodes_coq(&p.g), tape_coq(&p.g, &vals));
+    let rhs = expected_coq(&p.g, &vals);
+    out.case(kind, lhs, rhs, json!({"ops": ops, "input_types": p.input_types.iter().map(|t| format!("{}", t)).collect::<Vec<_>>()}), nodes.len() > p.input_types.len() + 1);
+    if tag == "Panic" {
+        out.violation("evaluate-node-panics", json!({"ops": ops, "input_types": p.input_types.iter().map(|t| format!("{}", t)).collect::<Vec<_>>()}), "SimpleEvaluator panicked on a graph the builder accepted".into());
+    }
+}
+
+pub fn run(tier: &str, seed: u64, out: &mut Out) {
+    let mut rng = Rng::new(seed ^ 0xC10);
+    let (n_single, n_multi) = match tier { "thorough" => (1500, 600), "search" => (3000, 1000), _ => (260, 90) };
+    // one-operation graphs over every scalar type
+    for i in 0..n_single {
+        let st = ALL_ST[i % ALL_ST.len()];
+        let opn = ALL_OPS[(i / ALL_ST.len()) % ALL_OPS.len()];
+        let cfg = GenCfg { n_inputs: 1 + rng.below(3) as usize, n_ops: 1 + rng.below(2) as usize, scalar_types: vec![st, st, st, BIT], ops: vec![opn], small: true };
+        let p = gen_program(&mut rng, &cfg);
+        out.stat(&format!("st:{}", scalar(st)));
+        emit_eval_case(&p, &mut rng, out, "eval_single_op");
+    }
+    // compositions
+    for _ in 0..n_multi {
+        let st = *rng.pick(&ALL_ST);
+        let cfg = GenCfg { n_inputs: 1 + rng.below(3) as usize, n_ops: 3 + rng.below(8) as usize, scalar_types: vec![st, st, BIT, *rng.pick(&ALL_ST)], ops: ALL_OPS.to_vec(), small: true };
+        let p = gen_program(&mut rng, &cfg);
+        emit_eval_case(&p, &mut rng, out, "eval_composition");
+    }
+}
